@@ -1,26 +1,33 @@
 #!/bin/bash
-# run_seeds.sh [seed-id ...]: applies each seeded change to /repo, runs the quick checks of the
-# properties given in its meta (or all claimed checks), records which obligations fail, reverts.
-# Nothing is ever committed to /repo.
+# run_seeds.sh [seed-id ...]: applies each seeded change to a scratch worktree of /repo HEAD (never
+# to /repo itself), runs the quick checks against it (gverif -repo <worktree>), records which
+# obligations fail in seeded/<id>/detection.txt, removes the worktree.
+# SEED_PROPS="C01 C05" restricts the properties; default: the seed's own property plus the
+# properties listed in seeded/<id>/also_check (one line, optional).
 cd /verif
 SEEDS="$@"; [ -z "$SEEDS" ] && SEEDS=$(ls seeded)
-PROPS=$(python3 -c "import json;print(' '.join(c['property_id'] for c in json.load(open('/verif/MANIFEST.json'))['checks']))")
-[ -n "$SEED_PROPS" ] && PROPS="$SEED_PROPS"
+W=/var/tmp/seedrepo.$$; V=/var/tmp/seedverif.$$
+git -C /repo worktree add --detach $W HEAD >/dev/null 2>&1 || { echo "cannot create worktree"; exit 2; }
+mkdir -p $V; ln -s /verif/props.json /verif/contracts /verif/known_findings.txt /verif/replay $V/
+ALL=$(python3 -c "import json;print(' '.join(c['property_id'] for c in json.load(open('/verif/MANIFEST.json'))['checks']))")
 for s in $SEEDS; do
   d=/verif/seeded/$s
   patch=$d/patch.diff; [ -f $d/patch.rebased.diff ] && patch=$d/patch.rebased.diff
-  if ! git -C /repo diff --quiet; then echo "/repo is dirty, refusing"; exit 2; fi
-  if ! git -C /repo apply $patch 2>/dev/null; then echo "$s: patch does not apply"; echo "patch does not apply to the current tree" > $d/detection.txt; continue; fi
+  git -C $W checkout -q -- . 
+  if ! git -C $W apply $patch 2>/dev/null; then echo "$s: patch does not apply"; echo "patch does not apply to the current tree" > $d/detection.txt; continue; fi
+  own=${s%-*}
+  PROPS="$own $(cat $d/also_check 2>/dev/null)"
+  [ -n "$SEED_PROPS" ] && PROPS="$SEED_PROPS"
+  [ "$SEED_PROPS" = "all" ] && PROPS="$ALL"
   : > $d/detection.txt
   for p in $PROPS; do
-    out=$(./bin/gverif check -prop $p 2>&1)
+    echo " $ALL " | grep -q " $p " || continue
+    out=$(./bin/gverif check -prop $p -repo $W -verif $V 2>&1)
     v=$(echo "$out" | grep -c "^VIOLATION")
     if [ "$v" -gt 0 ]; then
       echo "$s: DETECTED by $p ($v obligations)"; echo "detected by check $p:" >> $d/detection.txt; echo "$out" | grep "^VIOLATION" | sed 's/replay=[^ ]* //' >> $d/detection.txt
     fi
   done
   [ -s $d/detection.txt ] || { echo "$s: not detected by [$PROPS]"; echo "not detected by the checks of: $PROPS" > $d/detection.txt; }
-  git -C /repo checkout -- .
 done
-# evidence files were rewritten by runs on modified trees: regenerate on the clean tree
-for p in $PROPS; do ./bin/gverif check -prop $p >/dev/null 2>&1; done
+git -C /repo worktree remove --force $W; rm -rf $V
